@@ -412,8 +412,8 @@ def check_numbers(ctx, prog):
     for e in fn_exprs(f):
         if e.get('k') != 'call' or (e.get('fn') or '').split('::')[-1] not in INT32 + INT64 + FLT:
             continue
-        n += 1
         name = e['fn'].split('::')[-1]
+        n += 0 if name in FLT else 1
         if name in FLT:
             ctx.ok('C06.numbers', f['pq'], 'parse:%s for long / fractional numbers' % name, fwhere(f, e['l']), 'floating conversion')
             continue
@@ -459,4 +459,4 @@ def check_numbers(ctx, prog):
                 ctx.check(st == 'holds', 'C06.numbers', f['pq'], role, fwhere(f, e['l']), 'guards confine the value to [INT_MIN, INT_MAX]',
                           'the literal value %s reaches `(int)` (%s): integers beyond the range of int decode to INT_MIN / garbage instead of the double the text denotes' % (
                               ', '.join('%s' % v for v in info.values()) if isinstance(info, dict) else '', pe(e)))
-    ctx.floor('C06.numbers conversions', n, 3)
+    ctx.floor('C06.numbers integer conversions', n, 1)
